@@ -447,6 +447,8 @@ fn need_quotes(string: &str) -> bool {
         || string.starts_with("0x")
         || string.parse::<i64>().is_ok()
         || string.parse::<f64>().is_ok()
+        // Anything else the loader would not read back as a string (e.g. `0o17`, `+.inf`).
+        || !matches!(Scalar::parse_from_cow(string.into()), Scalar::String(_))
 }
 
 #[cfg(test)]
